@@ -46,6 +46,9 @@ def configs(quick):
     # counts (unset -> the terminal sites, which start at the seed's pinned value, evolve freely)
     out.append(dict(dev="bar", tp=None, seed_tp=0.0, cur={"source": 4.0, "drain": -4.0}, A=0.4, opts=dict(dt_init=1e-2, adaptive=False)))
     out.append(dict(dev="bar", tp=0.0, seed_tp=None, cur={"source": 4.0, "drain": -4.0}, A=0.4, opts=dict(dt_init=1e-2, adaptive=False)))
+    # unset terminal value with a field that changes in time: "evolve freely like any other site" -- every recorded step on
+    # EVERY site is the free site update with the covariant Laplacian of that step's potential
+    out.append(dict(dev="bar", tp=None, cur={"source": 3.0, "drain": -3.0}, A=ramp, k=1, free=True, T=0.06, opts=dict(dt_init=5e-3, adaptive=False)))
     out.append(dict(dev="cross4", tp=0.0, cur={"source": 5.0, "drain": -2.0, "top": -3.5, "bottom": 0.5}, A=ramp, opts=dict(dt_init=2e-3, dt_max=2e-2, adaptive=True, adaptive_window=2)))
     out.append(dict(dev="bar3", tp=0.5, cur=None, A=0.6, opts=dict(dt_init=1e-2, adaptive=False, include_screening=True, screening_tolerance=1e-2)))
     if not quick:
@@ -121,6 +124,30 @@ def eval_config(ctx, cfg, with_model=True):
         # unset terminal value: terminal sites evolve freely like any other site
         if not moved[tsites].all():
             fail("unset-terminal-still-pinned", f"terminal_psi=None but {int((~moved[tsites]).sum())} terminal sites never moved")
+    if cfg.get("free") and tp is None:
+        from tdgl.finite_volume.operators import MeshOperators
+        from tdgl.solver.options import SparseSolver
+
+        sv_ = TDGLSolver(device=dev, options=opts, applied_vector_potential=cfg["A"], terminal_currents=cfg["cur"])
+        worst_t, worst_o = 0.0, 0.0
+        for fa, fb in zip(frames[:-1], frames[1:]):
+            if "applied_vector_potential" not in fb["data"] or fb["step"] != fa["step"] + 1:
+                continue
+            mo_ = MeshOperators(dev.mesh, SparseSolver.SUPERLU, fixed_sites=tsites, fix_psi=False)
+            mo_.build_operators()
+            mo_.set_link_exponents(np.asarray(fb["data"]["applied_vector_potential"]))
+            pa = np.asarray(fa["data"]["psi"])
+            res_ = TDGLSolver.solve_for_psi_squared(psi=pa, abs_sq_psi=np.abs(pa) ** 2, mu=np.asarray(fa["data"]["mu"]), epsilon=np.asarray(sv_.epsilon) * np.ones(len(pa)),
+                                                     gamma=sv_.gamma, u=sv_.u, dt=float(fb["dt"]), psi_laplacian=mo_.psi_laplacian)
+            if res_ is None:
+                continue
+            d_ = np.abs(np.asarray(res_[0]) - np.asarray(fb["data"]["psi"]))
+            worst_t, worst_o = max(worst_t, float(d_[tsites].max())), max(worst_o, float(d_[others].max()))
+            ctx.count("steps_recomputed_with_fresh_operators")
+        ctx.tol("recorded step vs free site update with fresh operators (terminal sites, unset terminal value)", worst_t, 1e-12)
+        if worst_t > 1e-12 or worst_o > 1e-12:
+            fail("unset-terminal-not-free", f"terminal_psi=None, time-dependent field: the recorded steps differ from the free site update with the covariant Laplacian of the step's own "
+                 f"potential by {worst_t:.3e} on terminal sites ({worst_o:.3e} on the other sites)", terminal_sites=worst_t, other_sites=worst_o)
     if not moved[others].all():
         fail("non-terminal-site-pinned", f"{int((~moved[others]).sum())} sites outside terminals never changed in a driven run", sites=others[~moved[others]][:5].tolist())
     # operators in use: identity rows exactly on terminal sites (when pinning), nowhere else
